@@ -1,5 +1,6 @@
 from __future__ import annotations
 from collections import defaultdict
+from functools import reduce
 import warnings
 from pathlib import Path
 from typing import overload
@@ -15,6 +16,22 @@ from .ode_component import MyokitComponent
 from .ode import ODE
 
 reserved_names = {name for name in dir(sp) if not name.startswith("_")}
+
+
+class SymPyExpressionReader(myokit.formats.sympy.SymPyExpressionReader):
+    """Expression reader where And / Or can have more than two operands
+    (as in sympy), while they are binary operators in myokit"""
+
+    def __init__(self, model=None):
+        super().__init__(model=model)
+        self._op_map[sp.And] = self._ex_and
+        self._op_map[sp.Or] = self._ex_or
+
+    def _ex_and(self, e):
+        return reduce(myokit.And, [self.ex(arg) for arg in e.args])
+
+    def _ex_or(self, e):
+        return reduce(myokit.Or, [self.ex(arg) for arg in e.args])
 
 
 class SymPyExpressionWriter(myokit.formats.sympy.SymPyExpressionWriter):
@@ -293,7 +310,7 @@ def gotran_to_myokit(ode: ODE, time_component="engine", time_unit="s") -> myokit
             }
         )
 
-    sympy_reader = myokit.formats.sympy.SymPyExpressionReader(model=model)
+    sympy_reader = SymPyExpressionReader(model=model)
     # Then we can add expressions
     for component in ode.components:
         comp = model[component.name]
